@@ -221,8 +221,8 @@ impl<D> Serialize for DicomJson<&'_ InMemElement<D>> {
             DicomValue::PixelSequence(_seq) => {
                 //serializer.serialize_entry("Value", &DicomJson(seq))?;
             }
-            DicomValue::Primitive(PrimitiveValue::Empty) => {
-                // no-op
+            DicomValue::Primitive(v) if v.multiplicity() == 0 => {
+                // no-op: a value with no items has no Value member
             }
             DicomValue::Primitive(v) => match vr {
                 VR::AE
